@@ -76,7 +76,7 @@ def cases(tier, rng):
             yield {"k": 1803, "args": [ds, sq, nets.pits(ds), _main(ds, upf, 0), upf, [0], [], [depth]], "call2": {"scale": 2 ** (n + 1)},
                    "group": f"{tag}-pfaf{depth}-fractional"}
     for t in range(150 if tier == "quick" else 1500):
-        nr, nc = rng.randint(2, 7), rng.randint(2, 7)
+        nr, nc = nets.rshape(rng, 2, 7)
         flw = nets.random_d8_raster(rng, nr, nc, p_nodata=rng.choice([0, 0.15]))
         ds = nets.d8_decode(flw, nr, nc)
         if not nets.pits(ds):
